@@ -188,11 +188,12 @@ def gen_case(rng, hist, chist):
         elif k < 0.96:
             cats.append('default'); chist['default'] += 1
         else:
+            # very long name; the model's matcher backtracks (cost ~ length^stars), so the length follows the
+            # largest number of stars in any line of this rule text
+            stars = max([p.count('*') for p in pieces] or [0])
+            reps = rng.randint(60, 150) if stars <= 2 else (12 if stars <= 4 else 3)
             base = rng.choice(pats) if pats else rng.choice(NAMES)
-            if base.count('*') <= 2:
-                cats.append(''.join(('q.' * rng.randint(60, 150)) if c == '*' else c for c in base) or 'q' * 300); chist['very_long'] += 1
-            else:
-                cats.append('net.' * 20); chist['very_long'] += 1
+            cats.append(''.join(('q.' * reps) if c == '*' else c for c in base[:40]) or 'q' * 300); chist['very_long'] += 1
     cats = [clean_cat(c) for c in cats]
     for c in cats:
         if '\n' in c:
@@ -215,7 +216,7 @@ def exhaustive_rule_lists(depth):
 
 # ---- cross-check against Qt's own QLoggingCategory on the rule subset Qt supports
 QT_NAMES = ['net', 'net.http', 'net.http.client', 'network', 'app', 'app.ui', 'app.ui.dialogs', 'default', 'driver.usb', 'a', 'ab',
-            'a.b', 'a.b+c', 'x(y)', 'z]', 'q$', '^q', 'a|b', 'a?b', 'x.fatal', 'net.debug', 'x.debug.info', 'n', 'core', 'a\\b', 'Net', 'aa']
+            'a.b', 'a.b+c', 'x(y)', 'z]', 'q$', '^q', 'a|b', 'a?b', 'x.fatal', 'net.debug', 'x.debug.info', 'n', 'core', 'Net', 'aa', 'a-b', 'a/b', 'a{2}']
 
 
 def gen_qt_case(rng, qh):
@@ -244,6 +245,8 @@ def gen_qt_case(rng, qh):
 
 
 def qt_comparable(pats, cat):
+    if '\\' in cat or '%' in cat:
+        return False            # Qt passes rule keys through QSettings' iniUnescapedKey (backslash, %XX)
     if not cat or not cat.isascii() or '\n' in cat or '\x00' in cat or cat == 'qt' or cat.startswith('qt.'):
         return False            # Qt reads the name as Latin-1; "qt*" categories have debug off by default
     for p in pats:
@@ -524,7 +527,7 @@ def run():
                     'python_reference_vs_impl_differences': py_diff,
                     'qt_crosscheck': {'rule_texts': len(qcases), 'evaluations': qt_eval, 'pairs_with_a_blocked_type': qt_blocked,
                                       'differences': len(qt_diff), 'pattern_shapes': dict(qh),
-                                      'subset': 'ASCII, one "=", no blank inside the name, "*" only at start and/or end, fatal excluded, categories '
+                                      'subset': 'ASCII, one "=", no blank inside the name, "*" only at start and/or end, no backslash or percent sign (QSettings key unescaping), fatal excluded, categories '
                                                 'not qt*/empty, "*suffix" rules only where the first occurrence of the suffix is the final one'},
                     'rule_generator_histogram': dict(hist), 'category_generator_histogram': dict(chist)})
     chk.cov.update(extra)
